@@ -657,6 +657,164 @@ def storage_fns(const_visit=True):
     return [resize, upd('resize_upd_i64', 'long'), upd('resize_upd_i32', 'int'), visit]
 
 
+DROP_H = 'specs/C08/drop.h'
+
+
+def byfeature_order_hook(P, n):
+    """the wrappers hoist byfeature(feature) (it throws for an invalid index) in front of the statement that uses it: this is
+    the C++17 order only where the call is the object / callee part of a postfix expression or stands alone (initialiser).
+    As one of SEVERAL arguments of a call its order against the other arguments is unspecified: refused."""
+    from cxx2c import Unsupported
+    if n.get('kind') not in ('CallExpr', 'CXXMemberCallExpr', 'CXXOperatorCallExpr', 'CXXConstructExpr'):
+        return None
+    args = n.get('inner', [])[1:] if n.get('kind') != 'CXXConstructExpr' else n.get('inner', [])
+    if len(args) < 2:
+        return None
+    for a in args:
+        for x in astload.walk(a):
+            if x.get('kind') == 'MemberExpr' and x.get('name') == 'byfeature':
+                raise Unsupported('byfeature(..) inside one of several call arguments: evaluation order unspecified')
+    return None
+
+
+def wrapper_fns(name):
+    """dataset_t::drop / shuffle / shuffled / undrop / unshuffle: thin wrappers around byfeature + one generator call (or a
+    loop over the generators); every read of m_feature_mapping by the wrapper goes through the bounds-checked, counting
+    accessor nv_fm_read"""
+    tu = 'src/dataset.cpp'
+    gv = r'std::vector<std::unique_ptr<nano::generator_t'
+    types = TYPES + [(r'^nano::datasource_t$', 'struct nv_datasource'),
+                     (r'__normal_iterator<\s*(const )?std::unique_ptr<nano::generator_t|^' + gv + r'.*>::(const_)?iterator$', 'int64_t'),
+                     (r'^nano::rgenerator_t$|^std::unique_ptr<nano::generator_t', 'struct nv_rgen'),
+                     (r'^nano::rgenerators_t$|^' + gv, 'struct nv_gens'),
+                     (r'^nano::indices_t$|tensor_t<nano::tensor_vector_storage_t, long, 1>$', 'struct nv_idxv')]
+    calls = ELEM + [(r'^operator\(\)\|typename tbase::tconstref \(const nano::tensor_size_t, const int\) const\|.*tensor_vector_storage_t, long, 2>', '(*nv_fm_read({&0}, {1}, {2}))'),
+                    (r'^operator->\|std::unique_ptr<nano::generator_t>::pointer \(\) const', '{&0}'),
+                    (r'^operator!=\|.*__normal_iterator', '({0} != {1})'), (r'^operator\+\+\|.*__normal_iterator', '(++{0})'),
+                    (r'^operator\*\|.*__normal_iterator', '(*nv_gens_at(&self->m_generators, {0}))'),
+                    (r'^operator\[\]\|std::vector<std::unique_ptr<nano::generator_t>>::const_reference \(std::vector::size_type\) const', '(*nv_gens_at({&0}, (int64_t)({1})))'),   # an index loop
+                    (r'^ctor\|nano::tensor_t<nano::tensor_carray_storage_t, long, 1>\|', '{0}')]
+    members = SIZE1 + [(r'^size\|' + gv, '{*self}.size'), (r'^byfeature\|nano::dataset_t', '(*dataset_byfeature({self}, {0}))!^'),
+                       (r'^begin\|' + gv, 'nv_gens_begin'), (r'^end\|' + gv, 'nv_gens_end'),
+                       (r'^drop\|nano::generator_t \*', 'nv_generator_drop'), (r'^shuffle\|nano::generator_t \*', 'nv_generator_shuffle'),
+                       (r'^shuffled\|nano::generator_t \*', 'nv_generator_shuffled'),
+                       (r'^undrop\|nano::generator_t \*', 'nv_generator_undrop({self}, &self->m_generators)'), (r'^unshuffle\|nano::generator_t \*', 'nv_generator_unshuffle({self}, &self->m_generators)')]
+    sel = (lambda d: len(astload.param_types(d)) == 2) if name == 'shuffled' else None
+    w = Fn('dataset_' + name, tu, name, flt='nano::dataset_t::' + name, select=sel, self_struct='struct nv_dataset', types=types, uf_float=False,
+           hooks=[byfeature_order_hook, size_rank2_hook(tu)], calls=calls, members=members)
+    if name in ('undrop', 'unshuffle'):
+        return [w]
+    _, chk_f, byf, feats, _ = dataset_fns()
+    return [w, byf, chk_f, feats]
+
+
+PROC_H = 'specs/C08/process.h'
+EBASE_TU = 'src/generator/elemwise_base.cpp'
+PROC_KINDS = ('sclass', 'mclass', 'scalar', 'struct')
+
+
+def process_fns(kind):
+    """<kind>_identity_t::process / feature (elemwise_identity.{h,cpp}) + base_elemwise_generator_t::mapped_* (all extracted)"""
+    types = [(r'^nano::datasource_t$', 'struct nv_dsrc'), (r'^nano::feature_t$', 'struct nv_feature'),
+             (r'^nano::tensor3d_dims_t$|^std::array<long, 3>$|tensor_dims_t<3', 'struct nv_dims3'),
+             (r'^std::tuple<\(lambda at .*elemwise_identity\.h:\d+:\d+\), long>$|^tuple<typename __decay_and_strip< ?(const )?\(lambda at .*elemwise_identity\.h:\d+:\d+\) ?&?>::__type, typename __decay_and_strip< ?(const )?long ?&?>::__type>$', 'struct nv_procret'),
+             (r'^\(lambda at .*elemwise_identity\.h:\d+:\d+\)$', 'struct nv_op')]
+    t2 = (r'^operator\(\)\|typename tbase::tconstref \(const nano::tensor_size_t, const int\) const\|.*tensor_vector_storage_t, long, 2>', '(*nv_t2i_at({&0}, {1}, {2}))')
+    common = dict(self_struct='struct nv_egen', types=types, uf_float=False,
+                  calls=[t2, (r'^make_dims\|', 'nv_make_dims3({0}, {1}, {2})'),
+                         (r'^size\|nano::tensor_size_t \(const tensor_dims_t<3', 'nv_dims3_size({0})'),
+                         (r'^max\|const long &\(const long &, const long &\)', 'nv_max_i64({0}, {1})'), (r'^min\|const long &\(const long &, const long &\)', 'nv_min_i64({0}, {1})'),
+                         (r'^make_tuple\|', '(struct nv_procret){ {1} }')],       # the operator (argument 0) is not translated
+                  members=[(r'^mapped_original\|', 'egen_mapped_original'), (r'^mapped_classes\|', 'egen_mapped_classes'),
+                           (r'^mapped_dims\|', 'egen_mapped_dims'),
+                           (r'^datasource\|nano::generator_t', '(*nv_gen_datasource({self}))'),
+                           (r'^feature\|nano::datasource_t', 'nv_dsrc_feature({self}, {0})')])
+    cls = f'nano::{kind}_identity_t::'
+    fns = [Fn(f'{kind}_process', GEN_TU, 'process', flt=cls + 'process', **common),
+           Fn(f'{kind}_feature', GEN_TU, 'feature', flt=cls + 'feature', **common)]
+    for nm in ('mapped_original', 'mapped_classes', 'mapped_dims'):
+        fns.append(Fn('egen_' + nm, EBASE_TU, nm, flt='nano::base_elemwise_generator_t::' + nm, **common))
+    return fns
+
+
+def process_harness(kind):
+    args = '&gen, i'      # (scalar_identity_t::process is a static member: the printer gives it the self parameter all the same)
+    return ('int main(void)\n{\n  NV_PROCESS_SETUP(NV_KIND_' + kind.upper() + ')\n'
+            f'  struct nv_feature f = {kind}_feature(&gen, i);\n'
+            f'  struct nv_procret r = {kind}_process({args});\n'
+            f'  __CPROVER_assert(!nv_thrown, "{kind} identity: feature(i) / process(i) do not throw for a valid generator-local index");\n'
+            f'  __CPROVER_assert(f.m_type == nv_F.m_type && f.m_classes == nv_F.m_classes && f.m_dims.nv_size == nv_F.m_dims.nv_size, "{kind} identity: feature(i) is the descriptor of the original feature the mapping names");\n'
+            f'  __CPROVER_assert(r.colsize == NV_COLUMNS(f), "{kind} identity: process(i) reports exactly the number of flatten columns that dataset_t::update() books for feature(i) (NV_COLUMNS of columns.h)");\n'
+            '  __CPROVER_assert(0, "nv_canary: end of harness reachable");\n  return 0;\n}\n')
+
+
+PBASE_TU = 'src/generator/pairwise_base.cpp'
+FEATURE_TU = 'src/feature.cpp'
+
+
+def feature_scalar_decl():
+    """the in-class declaration of feature_t::scalar (the one that carries the default arguments)"""
+    for d in astload.dump(FEATURE_TU, 'nano::feature_t'):
+        for x in astload.walk(d):
+            if x.get('kind') == 'CXXMethodDecl' and x.get('name') == 'scalar' and \
+               any(c.get('kind') == 'ParmVarDecl' and any(k.get('kind') != 'FullComment' for k in c.get('inner', [])) for c in x.get('inner', [])):
+                return x
+    from cxx2c import Unsupported
+    raise Unsupported('declaration of feature_t::scalar with default arguments not found')
+
+
+def feature_scalar_hook():
+    import hooks
+    inner = hooks.member_default_args_hook('scalar', r'nano::feature_t', 'feature_scalar', feature_scalar_decl)
+
+    def h(P, n):
+        t = inner(P, n)
+        return None if t is None else f'(*{t})'      # feature_t::scalar returns *this by reference
+    return h
+
+
+def product_process_fns():
+    """pairwise_product_t::process / feature + base_pairwise_generator_t::make_scalar_feature / mapped_original1/2 + feature_t::scalar"""
+    types = [(r'^nano::datasource_t$', 'struct nv_dsrc'), (r'^nano::feature_t$', 'struct nv_feature'), (r'^nano::feature_type$', 'int32_t'),
+             (r'^nano::tensor3d_dims_t$|^std::array<long, 3>$|tensor_dims_t<3', 'struct nv_dims3'),
+             (r'^std::tuple<\(lambda at .*pairwise_product\.h:\d+:\d+\), long>$|^tuple<typename __decay_and_strip< ?(const )?\(lambda at .*pairwise_product\.h:\d+:\d+\) ?&?>::__type, typename __decay_and_strip< ?(const )?long ?&?>::__type>$', 'struct nv_procret'),
+             (r'^\(lambda at .*pairwise_product\.h:\d+:\d+\)$', 'struct nv_op')]
+    t2 = (r'^operator\(\)\|typename tbase::tconstref \(const nano::tensor_size_t, const int\) const\|.*tensor_vector_storage_t, long, 2>', '(*nv_t2i_at({&0}, {1}, {2}))')
+    common = dict(types=types, uf_float=False, hooks=[feature_scalar_hook()],
+                  calls=[t2, (r'^make_dims\|', 'nv_make_dims3({0}, {1}, {2})'),
+                         (r'^make_tuple\|', '(struct nv_procret){ {1} }'),
+                         (r'^ctor\|nano::feature_t\|void \((const )?(nano::)?feature_t &&?\)', '{0}'),      # copy / move of a descriptor
+                         (r'^ctor\|nano::feature_t\|void \(((nano::)?string_t|std::(__cxx11::)?basic_string<char>|std::string)\)', 'nv_feature_named()'),          # feature_t{name}: the name is not modelled
+                         (r'^operator=\|std::array<long, 3> &', '({0} = {1})')],
+                  members=[(r'^mapped_original1\|', 'pgen_mapped_original1'), (r'^mapped_original2\|', 'pgen_mapped_original2'),
+                           (r'^make_scalar_feature\|', 'pgen_make_scalar_feature'),
+                           (r'^datasource\|nano::generator_t', '(*nv_gen_datasource({self}))'),
+                           (r'^feature\|nano::datasource_t', 'nv_dsrc_feature_ref'),
+                           (r'^clear\|std::vector<std::(__cxx11::)?basic_string', 'nv_feature_clear_labels(self)')])
+    gen = dict(self_struct='struct nv_egen', **common)
+    return [Fn('product_process', PAIR_TU, 'process', flt='nano::pairwise_product_t::process', **gen),
+            Fn('product_feature', PAIR_TU, 'feature', flt='nano::pairwise_product_t::feature', **gen),
+            Fn('pgen_make_scalar_feature', PBASE_TU, 'make_scalar_feature', flt='nano::base_pairwise_generator_t::make_scalar_feature', **gen),
+            Fn('pgen_mapped_original1', PBASE_TU, 'mapped_original1', flt='nano::base_pairwise_generator_t::mapped_original1', **gen),
+            Fn('pgen_mapped_original2', PBASE_TU, 'mapped_original2', flt='nano::base_pairwise_generator_t::mapped_original2', **gen),
+            Fn('feature_scalar', FEATURE_TU, 'scalar', flt='nano::feature_t::scalar', self_struct='struct nv_feature', **common)]
+
+
+PRODUCT_PROCESS = r"""
+int main(void)
+{
+  NV_PAIR_SETUP
+  struct nv_feature f = product_feature(&gen, i);
+  struct nv_procret r = product_process(&gen, i);
+  __CPROVER_assert(!nv_thrown, "pairwise product: feature(i) / process(i) do not throw for a valid generator-local index");
+  __CPROVER_assert(f.m_type != NVE_feature_type_sclass && f.m_type != NVE_feature_type_mclass && f.m_classes == 0, "pairwise product: feature(i) is a continuous feature without labels");
+  __CPROVER_assert(r.colsize == NV_COLUMNS(f), "pairwise product: process(i) reports exactly the number of flatten columns that dataset_t::update() books for feature(i) (NV_COLUMNS of columns.h)");
+  __CPROVER_assert(0, "nv_canary: end of harness reachable");
+  return 0;
+}
+"""
+
+
 UPD_H = 'specs/C08/update.h'
 import os as _os
 CBMC_TIMEOUT_DEFAULT = int(_os.environ.get('NV_CBMC_TIMEOUT', '600'))
@@ -752,6 +910,13 @@ def build(tier):
         targets.append(Target('gen_select_' + kind, gen_fns(['select_' + kind, 'should_drop']), GEN_H))
     for kind in ('sclass', 'mclass', 'scalar', 'struct'):
         targets.append(Target('dataset_select_' + kind, select_fns(kind), SEL_H, replace=['dataset_byfeature', 'dataset_check_samples']))
+    for kind in PROC_KINDS:
+        targets.append(Target('process_' + kind, process_fns(kind), PROC_H, enforce_none=True, harness=process_harness(kind), enums=FEATURE_TYPE_ENUM, timeout=60))
+    targets.append(Target('process_product', product_process_fns, PROC_H, enforce_none=True, harness=PRODUCT_PROCESS, enums=FEATURE_TYPE_ENUM, timeout=60))
+    for nm in ('drop', 'shuffle', 'shuffled'):
+        targets.append(Target('dataset_' + nm, wrapper_fns(nm), DROP_H, replace=['dataset_byfeature']))
+    for nm in ('undrop', 'unshuffle'):
+        targets.append(Target('dataset_' + nm, wrapper_fns(nm), DROP_H))
     return {
         'targets': targets, 'vcs': [],
         'decided': [
@@ -764,10 +929,15 @@ def build(tier):
             'typed value pools: for every feature list (any length, kinds, class counts -- every storage-width boundary --, dimensions) the real visit() (reader and writer overload) slices the pool whose type the real resize() recorded for the feature, inside the rows resize() gave that pool; two features never share rows of a pool; the mask has one row per feature and (samples+7)/8 bytes; no width rule is written in the spec (the two real dispatches are compared); datasource_storage_access*: dsrc_resize.loop_invariant_step.3/.4 = clause (c)+(a) at the observed features, step.5 = clause (b); datasource_storage_single*: the same clauses as named assertions for one-feature data sources',
             'pairwise product: the operator of pairwise_product_t::process equals (scalar_t)v1 * (scalar_t)v2 with IEEE semantics for all 10 x 10 storage-type instantiations; pairwise select_scalar / flatten (int32 x uint32): a cell is that product of the two stored sources of the sample behind the row when both are given, NaN otherwise, every other cell untouched, all reads in bounds',
             '[thorough tier] dataset_t::update() (real body, 5 loop contracts, for every generator list of up to 1000 generators / 1000 generated features, feature counts and column counts given by ghost prefix sums fbase / cbase): ESTABLISHES the bookkeeping invariant from any prior state: feature table has one row per generated feature and 5 columns, column table one row per flattened column (documented encodings: one-hot C-1, multi-label C, scalar / structured size(dims)) and 3 columns, generator table one row per generator; every write of the three tables is inside its table and every row is written; row f of the feature table names a generator g in [0, generators) that owns f (fbase[g] <= f < fbase[g+1]), the local index f - fbase[g] and the dimensions of the descriptor (mclass: (classes,1,1), scalar / struct: dims()); row c of the column table names the feature k < features() that owns c (cbase[k] <= c < cbase[k+1]: the column ranges of the features are consecutive, disjoint and tile [0, columns()), column2feature answers with the owner), the local column c - cbase[k] and a generator that owns k; row g of the generator table is the width of the column range [cbase[fbase[g]], cbase[fbase[g+1]]) that dataset_t::flatten hands to generator g; generator->feature(i) is only called with a valid local index',
+            'dataset_t::drop(f) / shuffle(f) / shuffled(f, samples) (real bodies, byfeature by its proved contract, m_feature_mapping as a real bounds-checked array whose every read by the wrapper is an access obligation 0 <= f < rows and is counted): an index outside [0, features()) throws, the generator is not called and NO cell of the mapping table is read on that path (dataset_<op>.postcondition.1-3, nv_t2i_at.assertion.1); a valid index does not throw and is forwarded exactly once, to the right operation, of the generator the table names (column 0) with the generator-local index (column 1) (postcondition.4-5); shuffled hands back the generator\'s answer for the caller\'s sample list; dataset_t::undrop() / unshuffle() (loop contract): every generator of the list (ghost slot) gets exactly one call of the right operation, no table cell is read, nothing throws',
+            'generator side of the column bookkeeping (quick tier): for the four identity generators (sclass / mclass / scalar / struct) and the pairwise product generator (real pairwise_product_t::process / feature, base_pairwise_generator_t::make_scalar_feature / mapped_original1/2, feature_t::scalar with its default dimensions read from the declaration) the real process(i) reports exactly NV_COLUMNS(feature(i)) flatten columns, with the real feature(), mapped_original / mapped_classes / mapped_dims and every read of the generator\'s mapping table in bounds; NV_COLUMNS is ONE macro (specs/C08/columns.h) shared with the contract of dataset_t::update() (thorough tier), so a generator whose width disagrees with the bookkeeping fails process_<kind>/main.assertion.3; feature(i) is the descriptor of the original feature the mapping names (main.assertion.2)',
             'drop / shuffle protocol: transition contracts of drop / shuffle / undrop / unshuffle over every reachable state, observed through the real should_drop / shuffled readers (hence for every call sequence, by induction); generator_t::select x4: a dropped feature is filled with NaN / -1 and its values are not computed, otherwise do_select runs on exactly these arguments'],
         'not_decided': [
             'agreement of the per-feature and flattened views for the other 11 feature kinds / storage widths, product and gradient generators, targets (the instantiations that exist were not enumerated with astload.instantiations in this round)',
             'the invariant proved for dataset_t::update() (thorough tier) is not yet wired into its callers: byfeature / select / flatten still ASSUME it at the queried row (the assumed instance -- 5 columns, 0 <= mapping(f, 0) < generators -- is a consequence of clauses 1 and 3 of the update contract, but no refinement target checks that implication); the loop of dataset_t::flatten that adds up the generator widths is not under contract',
+            'column width of the other generators (elemwise_gradient_t::process: rows * cols against make_struct_feature; the sclass / mclass / struct pairwise kinds, which have no generator in the library yet): not under contract; that elemwise_generator_t::flatten advances its column by exactly the colsize of process(i) is proved for the sclass / 8-bit instantiation only (flatten_sclass_u8)',
+            'the fit() side of the identity generators: detail::select (include/nano/generator/select.h, nested generic lambdas) builds the generator\'s mapping table; its result (row k = original index, classes(), dims() of a data-source feature of the generator\'s kind) is ASSUMED at the queried row by the process_* targets',
+            'dataset_t::drop / shuffle / shuffled: byfeature(feature) is hoisted in front of the statement that uses it (C++17: the postfix expression of a call is sequenced before its arguments); a source that passes byfeature(..) as one of SEVERAL arguments of a call (unspecified order) is refused (exit 2), not decided',
             'the thread-parallel dataset_t::flatten / targets bodies; generator_t::shuffled(feature, samples) (the loop that applies the permutation) and flatten_dropped',
             'the reshape arithmetic inside datasource_t::visit (only pool and row range are observed) and the value conversion in datasource_t::set / feature_storage_t',
             'pairwise loops for the other 99 storage-type pairs and the sclass / mclass / struct pairwise generators (same template text, other instantiations)',
@@ -788,6 +958,8 @@ def build(tier):
             'the permutation m_shuffled_all_samples is empty or has samples() entries each in [0, samples()) (generator_t::shuffle: std::shuffle of arange)',
             'flatten target: the listed samples are valid indices (what check(samples) must establish) -- every list read returns some index in [0, N); the flatten buffer is tracked at one ghost cell (the function never reads it); Eigen segment / setConstant / coefficient access have their documented meaning with their index preconditions checked at each use; dataset_t::flatten maps the buffer to samples.size() rows and hands the generator a column range inside it; generator_t::NaN is a NaN',
             'select targets: dataset_t::feature(i) throws for an invalid i (as proved for byfeature) and otherwise returns an arbitrary descriptor; handle_<kind> throws unless the descriptor has that kind; resize_and_map returns a view with the requested leading dimension (further dimensions not modelled); generator_t::select may throw',
+            'wrapper targets (drop / shuffle / shuffled / undrop / unshuffle): dataset_byfeature by its contract (proved by the dataset_byfeature target) under the same instance of the update() invariant at the queried row; generator_t::drop / shuffle / shuffled / undrop / unshuffle do not throw and are recorded by ghost variables (their transitions: gen_* targets); range-for / iterator loop over m_generators visits the slots 0 .. size-1 in order; at most 10^5 generators',
+            'process targets: the generator is fitted (generator_t::datasource() returns the data source, does not throw); base_elemwise_generator_t::fit() invariant at the queried row i (from select_<kind> / detail::select, not extracted): mapping(i, 0) is a valid feature index of the data source, mapping(i, 1) = its classes(), mapping(i, 2..4) = its dims(), and the feature has the generator\'s kind (is_sclass / is_mclass / is_scalar: size(dims) == 1 / is_struct: size(dims) > 1); 0 <= classes() <= 2^40; nano::size(dims) is an uninterpreted function of the three extents (congruence only; C16 proves nano::size), make_dims(a, b, c) is the triple; datasource_t::feature(i) is a pure function observed at one ghost index; the generator\'s mapping table is observed at one ghost row (index preconditions checked at every use); std::max / std::min on tensor_size_t have their exact meaning; the operator half of the tuple returned by process() is not looked at here; process_product: both originals named by the (2 x 5 column) mapping row are features of the data source (make_pairwise of two select_<kind> tables), feature_t{name} is a descriptor with arbitrary contents (name not modelled), m_labels.clear() makes classes() 0, nano::size of the dimensions (1, 1, 1) is 1',
             'exceptions are early returns with nv_thrown set; stubs called with a may-throw argument do nothing once nv_thrown is set',
             'sizes are bounded (2^40 samples for the bit mask, 10^6 list entries / samples elsewhere, 10^5 features / generators) only to keep byte counts inside size_t and CBMC objects addressable'],
         'trusted': [],
